@@ -240,9 +240,9 @@ pub enum Op {
     Recode,            // [ty, codec_in, codec_out, bytes] -> [bytes]
     ValueEq,           // [ty, codec_a, a, codec_b, b] -> [flag]
     Exercise,          // [ty, codec, bytes] -> []  (decode, then every accessor)
-    EnumNew,           // [] -> [enum-bytes]    SecretKeyEnum::new(t) (OS entropy)
-    EnumFromHash,      // [seed] -> [enum-bytes]
-    EnumRandom,        // [seed32] -> [enum-bytes]
+    EnumNew,           // [] -> [enum-bytes, enum-json]    SecretKeyEnum::new(t) (OS entropy)
+    EnumFromHash,      // [seed] -> [enum-bytes, enum-json]
+    EnumRandom,        // [seed32] -> [enum-bytes, enum-json]
     EnumFromBe,        // [bytes] -> [flag, enum-json?]
     EnumFromLe,        // [bytes] -> [flag, enum-json?]
     SkFromBe,          // [bytes32] -> [flag, sk?]   CtOption
